@@ -19,7 +19,7 @@ PROP = {'gen_tables': ['Callers', 'TransCaller', 'TransCapture', 'TransStackFmt'
                  'as the property statement says',
                  'the outermost frame of a stack trace (runtime.goexit) is dropped by design; the oracle accepts traces that are a prefix of the real '
                  'chain whose remainder is runtime.* only'],
- 'technique': 'Lean 4: caller-skip arithmetic over the regenerated depth table (every front end × derivation chain × wrapper depth), termination and completeness of the stack capture doubling loop; tie: Gen + generated call sites through noinline wrappers + translated source (EntryCaller.FullPath/TrimmedPath, stacktrace.Capture incl. termination of the doubling loop)',
+ 'technique': 'Lean 4: caller-skip arithmetic over the regenerated depth table (every front end × derivation chain × wrapper depth), termination and completeness of the stack capture doubling loop; tie: Gen + generated call sites through noinline wrappers + translated source (EntryCaller.FullPath/TrimmedPath, stacktrace.Capture incl. termination of the doubling loop) + translated stack formatter (FormatFrame/FormatStack = the modelled stack text)',
  'level_text': 'caller_is_user and capture_complete hold for all chains and depths of the model; the table of call depths is re-read from the source on every run.',
  'level_note': 'runtime.Callers and inlining are trusted; the depths inside packages log and log/slog are constants validated only by correspondence (one is a known finding).',
 }
